@@ -133,10 +133,25 @@ def env():
     return _ENV
 
 
+CANCELLED_CLASS_CODE = 77
+
+
+def marked_cancelled():
+    """an exception OUTCOME whose class is kiwipy's CancelledError (a failure that mentions a cancellation is not a cancellation):
+    to the model it is the user exception 77"""
+    import kiwipy
+
+    class FailedNotCancelled(kiwipy.CancelledError):
+        n = CANCELLED_CLASS_CODE
+    return FailedNotCancelled('a consulted future had been cancelled')
+
+
 def exc_name(e):
     import plumpy.futures as pf
     if isinstance(e, UserExc):
         return f'u{e.n}'
+    if getattr(e, 'n', None) == CANCELLED_CLASS_CODE and isinstance(e, concurrent.futures.CancelledError):
+        return f'u{CANCELLED_CLASS_CODE}'
     if isinstance(e, BaseExc):
         return f'b{e.n}'
     if isinstance(e, (asyncio.CancelledError, concurrent.futures.CancelledError)):
@@ -222,7 +237,7 @@ class Run:
             if kind == 'f':
                 return H[arg]
             if kind == 'x':
-                raise UserExc(arg)
+                raise (marked_cancelled() if arg == CANCELLED_CLASS_CODE else UserExc(arg))
             if kind == 'b':
                 raise BaseExc(arg)
             raise AssertionError(spec)
@@ -244,6 +259,8 @@ class Run:
                     f.set_result(int(p[2]))
                 elif k == 'ref':
                     f.set_result(H[int(p[2])])
+                elif int(p[2]) == CANCELLED_CLASS_CODE:
+                    f.set_exception(marked_cancelled())
                 else:
                     f.set_exception(UserExc(int(p[2])))
             except (asyncio.InvalidStateError, concurrent.futures.InvalidStateError):
